@@ -881,7 +881,41 @@ def c17(W, replay=None):
 
 
 # ---------------------------------------------------------------------------------------------
-REGISTRY = {"C01": c01, "C02": c02, "C03": c03, "C04": c04, "C05": c05, "C07": c07, "C08": c08, "C09": c09, "C10": c10, "C11": c11, "C12": c12, "C13": c13, "C14": c14, "C15": c15, "C17": c17, "C18": c18}
+# C19 Kubernetes secret propagation (SecretSync / SecretTrace)
+
+
+def c19(W, replay=None):
+    W.build()
+    scen = []
+    if not replay:
+        thorough = W.tier == "thorough"
+        for rc in (1, 2, 3, 4, 5):
+            cfg = cfg_text("Spec", dict(RefCase=rc, Names='{"n1", "n2"}' if not thorough or rc > 2 else '{"n1", "n2", "n3"}', Vals='{"v1", "v2"}', MaxLen=10, Export="TRUE"),
+                           ["OnlyReferencing"], view="view", extra="ACTION_CONSTRAINT PrintTransition\n")
+            out, viol = W.tlc_exhaustive("SecretSync", cfg, "secretsync-%d" % rc, workers=1, timeout=3000)
+            if viol:
+                raise Infra("SecretSync violates %s" % viol)
+            hs = sample(W, W.scenarios_from(out), 6000 if thorough else (700 if rc <= 3 else 150))
+            scen += [{"id": "c19/refs%d/%d" % (rc, i), "refs": h["refs"], "events": h["events"]} for i, h in enumerate(hs)]
+        # start-up: cross-namespace references are refused, a reference naming the controller's own namespace is not
+        ev = [{"op": "set", "name": "n1", "v": "v1"}, {"op": "reconcile", "name": "n1", "v": ""}]
+        scen += [{"id": "c19/startup/cross-ns-first", "refs": ["n1", "lit", "n2"], "refNs": ["other", "", ""], "crossNs": True, "events": ev},
+                 {"id": "c19/startup/cross-ns-last", "refs": ["n1", "lit", "n2"], "refNs": ["", "", "other"], "crossNs": True, "events": ev},
+                 {"id": "c19/startup/own-ns-explicit", "refs": ["n1", "n1", "lit"], "refNs": ["own", "", ""], "crossNs": False, "events": ev + [{"op": "set", "name": "n1", "v": "v2"}, {"op": "reconcile", "name": "n1", "v": ""}]}]
+    else:
+        scen = [json.loads(l) for l in open(os.path.join(replay, "scenario.ndjson")) if l.strip()]
+    index = {s_["id"]: s_ for s_ in scen}
+    trace = W.drive("TestSecret", scen, "secret")
+    v = W.validate(trace, "secret", module="SecretTrace")
+    if v["fired"].get("scenarios", 0) != len(scen):
+        raise Infra("SecretTrace judged %s scenarios, driver ran %d" % (v["fired"].get("scenarios"), len(scen)))
+    return judge("C19", W, [v], index, traces=len(scen), samples=[{"scenario": scen[0], "recorded_events": sample_events_at(trace, 4)}],
+                 assumptions=["controller-runtime's fake client stands in for the API server; a Secret is kept in 'deleting' state by a finalizer",
+                              "the secret a token-endpoint request would use is observed as OIDCConfig.GetClientSecret() of the very configuration objects the handlers read at request time"])
+
+
+# ---------------------------------------------------------------------------------------------
+REGISTRY = {"C01": c01, "C02": c02, "C03": c03, "C04": c04, "C05": c05, "C07": c07, "C08": c08, "C09": c09, "C10": c10, "C11": c11, "C12": c12, "C13": c13, "C14": c14, "C15": c15, "C17": c17, "C18": c18, "C19": c19}
 
 
 def run(prop, W, replay=None):
